@@ -113,17 +113,20 @@ class InvariantSiteModel(SiteModel):
 
     def to(self, *args, **kwargs) -> None:
         super().to(*args, **kwargs)
-        self._probabilities = self._probabilities.to(*args, **kwargs)
+        if self._probabilities is not None:
+            self._probabilities = self._probabilities.to(*args, **kwargs)
         self.needs_update = True
 
     def cuda(self, device: Optional[Union[int, torch.device]] = None) -> None:
         super().cuda(device)
-        self._probabilities = self._probabilities.cuda(device)
+        if self._probabilities is not None:
+            self._probabilities = self._probabilities.cuda(device)
         self.needs_update = True
 
     def cpu(self) -> None:
         super().cpu()
-        self._probabilities = self._probabilities.cpu()
+        if self._probabilities is not None:
+            self._probabilities = self._probabilities.cpu()
         self.needs_update = True
 
     def _sample_shape(self) -> torch.Size:
